@@ -71,6 +71,8 @@ pub struct CaseStats {
     pub known_findings: BTreeSet<String>,
     pub log: Vec<String>,
     pub verbose: bool,
+    /// signatures listed in known_findings.json for this property
+    pub known_sigs: std::sync::Arc<BTreeSet<String>>,
 }
 impl CaseStats {
     pub fn label(&mut self, l: &str) {
@@ -78,6 +80,16 @@ impl CaseStats {
     }
     pub fn count(&mut self, l: &str, n: u64) {
         *self.counters.entry(l.to_string()).or_default() += n;
+    }
+    /// If `sig` is a listed known finding, record that it was met and return true (the engine then
+    /// continues with its exclusion rule); otherwise return false (the engine reports a violation).
+    pub fn known(&mut self, sig: &str) -> bool {
+        if self.known_sigs.contains(sig) {
+            self.known_findings.insert(sig.to_string());
+            true
+        } else {
+            false
+        }
     }
     pub fn say(&mut self, s: impl FnOnce() -> String) {
         if self.verbose {
@@ -177,10 +189,13 @@ pub fn run_engine<E: Engine>(engine: &E, opts: &RunOpts) -> i32 {
         let v: Value = serde_json::from_str(&text).expect("replay json");
         let case: E::Case = serde_json::from_value(v.get("case").cloned().unwrap_or(v.clone()))
             .expect("replay case decodes");
-        let mut st = CaseStats { verbose: true, ..Default::default() };
+        let mut st = CaseStats { verbose: true, known_sigs: std::sync::Arc::new(known_sigs.clone()), ..Default::default() };
         let r = run_guarded(engine, &case, &mut st);
         for l in &st.log {
             println!("{l}");
+        }
+        for k in &st.known_findings {
+            println!("KNOWN-FINDING: property={id} {k}");
         }
         return match r {
             Ok(()) => {
@@ -209,11 +224,13 @@ pub fn run_engine<E: Engine>(engine: &E, opts: &RunOpts) -> i32 {
         shards = s;
     }
     let agg = Mutex::new(Agg::default());
+    let known_arc = std::sync::Arc::new(known_sigs.clone());
     let known_sigs_ref = &known_sigs;
     let agg_ref = &agg;
 
     std::thread::scope(|scope| {
         for shard in 0..shards {
+            let known_arc = std::sync::Arc::clone(&known_arc);
             std::thread::Builder::new().stack_size(1 << 30).spawn_scoped(scope, move || {
                 let strat = engine.strategy(opts.tier);
                 let cfg = Config {
@@ -230,7 +247,7 @@ pub fn run_engine<E: Engine>(engine: &E, opts: &RunOpts) -> i32 {
                 let failed = std::cell::Cell::new(false);
                 let local_cell = std::cell::RefCell::new(&mut local);
                 let result = runner.run(&strat, |case| {
-                    let mut st = CaseStats::default();
+                    let mut st = CaseStats { known_sigs: std::sync::Arc::clone(&known_arc), ..Default::default() };
                     let r = run_guarded(engine, &case, &mut st);
                     let r = match r {
                         Err(v) if known_sigs_ref.contains(&v.signature) => {
